@@ -191,6 +191,53 @@ def cartesian {α : Type} [Zero α] (nodes : List (List α)) (orderF : Bool) : L
     repeat1d (nodes.getD i []) (reps.getD i 1) l
   (List.range l).map fun r => cols.map fun c => c.getD r 0
 
+/-! ### cartesian / mlinspace as called (argument handling and error branches) -/
+
+/-- `cartesian(nodes, order)` as called: no grids → `np.result_type()` raises `ValueError`;
+    an empty grid → `_repeat_1d` divides by `K*N = 0` (`ZeroDivisionError`); any `order` other
+    than `'C'` takes the F branch. -/
+def cartesianApi {α : Type} [Zero α] (nodes : List (List α)) (order : String) :
+    Except String (List (List α)) :=
+  if nodes.isEmpty then .error "ValueError"
+  else if nodes.any List.isEmpty then .error "ZeroDivisionError"
+  else .ok (cartesian nodes (!(order == "C")))
+
+/-- `np.linspace(start, stop, num)` (endpoint=True, scalar end points), operation by operation:
+    `y = arange(num)`; `div = num-1`; if `div > 0`: `step = delta/div`, and `y = y*step`
+    (or `y = y/div*delta` when `step == 0`), else `y = y*delta`; `y += start`; finally
+    `y[-1] = stop` when `num > 1`. `cast` is the int → float conversion. -/
+def linspace {α : Type} [Add α] [Sub α] [Mul α] [Div α] [Zero α] [BEq α] (cast : Nat → α)
+    (start stop : α) (num : Nat) : List α :=
+  let div := num - 1
+  let delta := stop - start
+  let y : List α :=
+    if div > 0 then
+      let step := delta / cast div
+      if step == 0 then (List.range num).map fun i => cast i / cast div * delta + start
+      else (List.range num).map fun i => cast i * step + start
+    else (List.range num).map fun i => cast i * delta + start
+  if num > 1 then y.set (num - 1) stop else y
+
+/-- the list comprehension `[np.linspace(a[i], b[i], nums[i]) for i in range(len(nums))]`:
+    the first failing index decides (`a[i]`/`b[i]` out of range: `IndexError`; negative
+    `nums[i]`: `ValueError`) -/
+def mlGrids {α : Type} [Add α] [Sub α] [Mul α] [Div α] [Zero α] [BEq α] (cast : Nat → α)
+    (a b : List α) : List Int → Nat → Except String (List (List α))
+  | [], _ => .ok []
+  | n :: rest, i =>
+    if a.length ≤ i ∨ b.length ≤ i then .error "IndexError"
+    else if n < 0 then .error "ValueError"
+    else match mlGrids cast a b rest (i + 1) with
+      | .error e => .error e
+      | .ok gs => .ok (linspace cast (a.getD i 0) (b.getD i 0) n.toNat :: gs)
+
+/-- `mlinspace(a, b, nums, order)` -/
+def mlinspaceApi {α : Type} [Add α] [Sub α] [Mul α] [Div α] [Zero α] [BEq α] (cast : Nat → α)
+    (a b : List α) (nums : List Int) (order : String) : Except String (List (List α)) :=
+  match mlGrids cast a b nums 0 with
+  | .error e => .error e
+  | .ok grids => cartesianApi grids order
+
 /-! ### cartesian_nearest_index -/
 
 /-- `np.searchsorted(a, v)` (side='left'): first index with `v ≤ a[i]` -/
@@ -217,6 +264,19 @@ def nearestIndex {α : Type} [Zero α] [Sub α] [LE α] [LT α] [DecidableLE α]
   let ind := (List.range nodes.length).map fun i => nearest1 (nodes.getD i []) (x.getD i 0)
   let nums := nodes.map List.length
   if orderF then cartesianIndex ind.reverse nums.reverse else cartesianIndex ind nums
+
+/-- `cartesian_nearest_index(x, nodes, order)` as called, for a batch `X` of points whose
+    common length is `n` (`n = x.shape[-1]`; a 1-d `x` is the batch `[x]`): `type(e[0])` raises
+    `IndexError` on an empty grid, `np.result_type()` raises `ValueError` without grids, then
+    the length test raises `ValueError`; the kernel takes the F branch only for `order == 'F'`
+    (any other string counts as `'C'` — unlike `cartesian`). -/
+def nearestIndexApi {α : Type} [Zero α] [Sub α] [LE α] [LT α] [DecidableLE α] [DecidableLT α]
+    (X : List (List α)) (n : Nat) (nodes : List (List α)) (order : String) :
+    Except String (List Nat) :=
+  if nodes.any List.isEmpty then .error "IndexError"
+  else if nodes.isEmpty then .error "ValueError"
+  else if nodes.length ≠ n then .error "ValueError"
+  else .ok (X.map fun x => nearestIndex nodes x (order == "F"))
 
 /-! ### line protocol -/
 
@@ -258,6 +318,45 @@ def handle (toks : List String) : String :=
     match kvInts r "a" with
     | some a => toString (kArrayRankJit a)
     | _ => "bad-op"
+  | "cartapi" :: r =>
+    -- nodes=none : no grids; otherwise grids separated by ';', an empty grid written '-'
+    match kv r "nodes", kv r "order" with
+    | some ns, some o =>
+      let grids : Option (List (List Int)) :=
+        if ns = "none" then some [] else (ns.splitOn ";").mapM (parseList? parseInt?)
+      match grids with
+      | some g =>
+        match cartesianApi g o with
+        | .ok rows => showMat toString rows
+        | .error e => "ERR:" ++ e
+      | none => "bad-op"
+    | _, _ => "bad-op"
+  | "nearestapi" :: r =>
+    -- nodes / X : "none" = empty list of rows; rows separated by ';', an empty row written '-'
+    match kv r "X", kvNat r "n", kv r "nodes", kv r "order" with
+    | some xs, some n, some ns, some o =>
+      let rd (t : String) : Option (List (List Rat)) :=
+        if t = "none" then some [] else (t.splitOn ";").mapM (parseList? parseRat?)
+      match rd xs, rd ns with
+      | some X, some nodes =>
+        if X.all (fun x => x.length == n) then
+          match nearestIndexApi X n nodes o with
+          | .ok idx => showList toString idx
+          | .error e => "ERR:" ++ e
+        else "bad-op"
+      | _, _ => "bad-op"
+    | _, _, _, _ => "bad-op"
+  | "linspace" :: r =>
+    match kvFloats r "a", kvFloats r "b", kvNat r "num" with
+    | some [a], some [b], some num => showList showFloatBits (linspace Float.ofNat a b num)
+    | _, _, _ => "bad-op"
+  | "mlinspace" :: r =>
+    match kvFloats r "a", kvFloats r "b", kvInts r "nums", kv r "order" with
+    | some a, some b, some nums, some o =>
+      match mlinspaceApi Float.ofNat a b nums o with
+      | .ok rows => showMat showFloatBits rows
+      | .error e => "ERR:" ++ e
+    | _, _, _, _ => "bad-op"
   | "krankjitw" :: r =>
     match kvInts r "a" with
     | some a => if a.isEmpty then "bad-op" else toString (kArrayRankJitW a)
